@@ -40,6 +40,7 @@ import (
 	"testing"
 	"time"
 
+	"github.com/Cloud-Foundations/golib/pkg/log/nulllogger"
 	"github.com/Cloud-Foundations/keymaster/lib/paths"
 	"github.com/duo-labs/webauthn/webauthn"
 	"github.com/pquerna/otp/totp"
@@ -263,6 +264,9 @@ type c05World struct {
 	proved    map[[2]int]bool
 	accepted  map[string]bool
 	realStep  int64
+	dirty     bool // stored profiles may differ from the pristine ones
+	savedFor  int  // configuration the stored profiles were written for
+	cfgID     int
 	ops       []string
 	outs      []string
 	human     []string
@@ -318,7 +322,10 @@ func (w *c05World) reset() {
 	st.totpLocalRateLimit = map[string]totpRateLimitInfo{}
 	st.totpLocalTateLimitMutex.Unlock()
 	w.vip.reset()
-	w.saveProfiles()
+	if w.dirty || w.savedFor != w.cfgID {
+		w.saveProfiles()
+		w.dirty, w.savedFor = false, w.cfgID
+	}
 	w.cookies, w.tokens, w.fresh, w.nowM = nil, nil, 0, 0
 	w.txReal, w.txOwner, w.vcTx = map[int]string{}, map[int]int{}, map[int]int{}
 	w.chalBytes, w.chalOwner, w.chalAt, w.curChal = map[int][]byte{}, map[int]int{}, map[int]int64{}, map[int]int{}
@@ -346,6 +353,7 @@ func (w *c05World) shiftTotp(steps int64) {
 		if p.LastSuccessfullTOTPCounter != 0 {
 			p.LastSuccessfullTOTPCounter -= steps
 			st.SaveUserProfile(w.names[u], p)
+			w.dirty = true
 		}
 	}
 }
@@ -372,6 +380,7 @@ func (w *c05World) tick(dt int64) {
 		if err == nil && ok && len(p.BootstrapOTP.Sha512Hash) > 0 {
 			p.BootstrapOTP.ExpiresAt = p.BootstrapOTP.ExpiresAt.Add(-d)
 			st.SaveUserProfile(w.names[u], p)
+			w.dirty = true
 		}
 	}
 	st.Mutex.Lock()
@@ -636,6 +645,7 @@ func (w *c05World) totp(cs []int, owner int, step int64) {
 	}
 	rr := w.serve(req)
 	em := w.emitted(rr)
+	w.dirty = true
 	if owner != 0 {
 		w.acceptOnce("Totp", fmt.Sprintf("totp:%d:%d", owner, step), step < w.modelStep()-1, em)
 	}
@@ -730,6 +740,11 @@ func (w *c05World) finish(kind string, cs []int, owner int, wa bool, chal int) {
 	}
 	rr := w.serve(req)
 	em := w.emitted(rr)
+	if kind == "WaFinish" {
+		// webauthnAuthFinish saves the profile from a goroutine: let it land before anything else happens
+		w.dirty = true
+		time.Sleep(15 * time.Millisecond)
+	}
 	w.acceptOnce(kind, fmt.Sprintf("challenge:%d", chal), known && w.nowM >= w.chalAt[chal]+30, em)
 	w.record(kind, fmt.Sprintf("%s %s (A %d %d %s)", kind, c05CoqList(cs), owner, chal, coqBool(wa)),
 		fmt.Sprintf("%s%v(key of %s, wa=%v, challenge %d)", kind, cs, w.names[owner], wa, chal), su, rr.Code < 400, em)
@@ -743,6 +758,7 @@ func (w *c05World) issueOtp(target int, dur int64) {
 	req.AddCookie(w.admin)
 	rr := w.serve(req)
 	ok := rr.Code == 200
+	w.dirty = true
 	if ok {
 		var d newBootstrapOTPPPageTemplateData
 		if err := json.Unmarshal(rr.Body.Bytes(), &d); err != nil || d.BootstrapOTPValue == "" {
@@ -781,6 +797,7 @@ func (w *c05World) bootstrap(cs []int, serial int) {
 	}
 	rr := w.serve(req)
 	em := w.emitted(rr)
+	w.dirty = true
 	if owner != 0 {
 		w.acceptOnce("Bootstrap", fmt.Sprintf("boot:%d", serial), w.nowM >= w.otpExp[serial], em)
 	}
@@ -863,7 +880,6 @@ func (w *c05World) alphabet() []func() {
 	}
 	return []func(){
 		func() { w.totp([]int{0}, 1, w.modelStep()) },
-		func() { w.totp([]int{1}, 1, w.modelStep()) },
 		func() { w.totp([]int{1, 0}, 1, w.modelStep()) },
 		func() { w.totp([]int{last()}, 1, w.modelStep()-1) },
 		func() { w.tick(30) },
@@ -906,6 +922,79 @@ func (w *c05World) randomOp(rng *mrand.Rand) {
 			return id
 		}
 		return rng.Intn(w.fresh + 2)
+	}
+	// half of the time continue something that is under way, in the right or in the wrong session
+	if rng.Intn(2) == 0 {
+		u := user()
+		ses := func() []int {
+			var own, other []int
+			for i, c := range w.cookies {
+				if c.sub == u {
+					own = append(own, i)
+				} else {
+					other = append(other, i)
+				}
+			}
+			switch x := rng.Intn(8); {
+			case x == 0 && len(other) > 0:
+				return []int{other[rng.Intn(len(other))]}
+			case x == 1 && len(other) > 0 && len(own) > 0:
+				return []int{other[rng.Intn(len(other))], own[rng.Intn(len(own))]}
+			case x == 2 && len(other) > 0 && len(own) > 0:
+				return []int{own[rng.Intn(len(own))], other[rng.Intn(len(other))]}
+			case len(own) > 0:
+				return []int{own[len(own)-1-rng.Intn(1+len(own)/2)]}
+			}
+			return pickCs()
+		}
+		switch rng.Intn(9) {
+		case 0:
+			if id, ok := w.curChal[u]; ok {
+				w.finish("U2fFinish", ses(), u, w.devs[u].wa && (!w.devs[u].u2f || rng.Intn(2) == 0), id)
+				return
+			}
+			w.u2fBegin(ses())
+			return
+		case 1:
+			if id, ok := w.curChal[u]; ok {
+				w.finish("WaFinish", ses(), u, w.devs[u].wa && (!w.devs[u].u2f || rng.Intn(2) == 0), id)
+				return
+			}
+			w.waBegin(ses())
+			return
+		case 2:
+			if tx, ok := w.vcTx[u-1]; ok {
+				if rng.Intn(2) == 0 {
+					w.approve(tx)
+				} else {
+					w.poll(ses(), u-1)
+				}
+				return
+			}
+			w.pushStart(ses(), u-1)
+			return
+		case 3:
+			if id, ok := w.curOtp[u]; ok {
+				w.bootstrap(ses(), id)
+				return
+			}
+			w.issueOtp(u, 3600)
+			return
+		case 4:
+			w.totp(ses(), u, w.modelStep()+int64(rng.Intn(3))-1)
+			return
+		case 5:
+			w.vipOtp(ses(), u, true)
+			return
+		case 6:
+			w.showTok(ses(), 3600)
+			return
+		case 7:
+			if len(w.tokens) > 0 {
+				w.sendDoc(ses(), rng.Intn(len(w.tokens)))
+				return
+			}
+		}
 	}
 	switch rng.Intn(20) {
 	case 0:
@@ -1035,7 +1124,7 @@ func (w *c05World) targeted() []func() {
 
 func TestVerif_C05(t *testing.T) {
 	verifWriteConsts(t)
-	res := newVerifResult("exhaustive depth-3 (thorough: depth-4) histories over a 15-letter alphabet after the prefix [login alice; login bob] + seeded random histories of length <= 12 (thorough <= 20) over all 16 operations, two enrolment configurations, cookies attached singly and in pairs in both orders + targeted scenarios; non-trivial = the history contains at least one level upgrade; distinct by (operations, outputs)")
+	res := newVerifResult("exhaustive depth-3 (thorough: depth-4) histories over a 14-letter alphabet after the prefix [login alice; login bob] + seeded random histories of length <= 12 (thorough <= 20) over all 16 operations, two enrolment configurations, cookies attached singly and in pairs in both orders + targeted scenarios; non-trivial = the history contains at least one level upgrade; distinct by (operations, outputs)")
 	vip := &c05Vip{}
 	vip.reset()
 	vip.srv = httptest.NewTLSServer(http.HandlerFunc(vip.handle))
@@ -1070,6 +1159,9 @@ func TestVerif_C05(t *testing.T) {
 	client.RootCAs = x509.NewCertPool()
 	client.RootCAs.AddCert(vip.srv.Certificate())
 	env.handler = env.buildHandler()
+	// tens of thousands of requests: the debug loggers format every request structure
+	env.state.logger = nulllogger.New()
+	logger = nulllogger.New()
 	webui := env.state.getRequiredWebUIAuthLevel()
 	w := &c05World{t: t, env: env, vip: vip, res: res, names: []string{"", "alice", "bob", "admin"}, webui: webui,
 		secret: map[int]string{}, u2fKey: map[int]*c05Key{}, waKey: map[int]*c05Key{}}
@@ -1083,6 +1175,7 @@ func TestVerif_C05(t *testing.T) {
 		w.waKey[u] = c05NewKey(fmt.Sprintf("wa-%d", u))
 	}
 	w.admin = env.cookie("admin", AuthTypeU2F)
+	w.savedFor = -1
 	configs := []map[int]c05Devs{
 		{1: {totp: true, u2f: true, profile: true}, 2: {wa: true, profile: true}},
 		{1: {totp: true, u2f: true, wa: true, profile: true}, 2: {profile: true}},
@@ -1111,7 +1204,7 @@ func TestVerif_C05(t *testing.T) {
 	}
 	// targeted scenarios, under both configurations
 	for ci := range configs {
-		w.devs = configs[ci]
+		w.devs, w.cfgID = configs[ci], ci
 		n := len(w.targeted())
 		for i := 0; i < n; i++ {
 			w.prefix()
@@ -1121,7 +1214,7 @@ func TestVerif_C05(t *testing.T) {
 		}
 	}
 	// exhaustive small scope
-	w.devs = configs[0]
+	w.devs, w.cfgID = configs[0], 0
 	depth := 3
 	if thorough {
 		depth = 4
@@ -1149,7 +1242,7 @@ func TestVerif_C05(t *testing.T) {
 	}
 	for h := 0; h < nRandom; h++ {
 		ci := h % len(configs)
-		w.devs = configs[ci]
+		w.devs, w.cfgID = configs[ci], ci
 		w.prefix()
 		n := 3 + rng.Intn(maxLen-2)
 		for i := 0; i < n; i++ {
